@@ -494,6 +494,9 @@ is_constructible(const CPPType *given_type) const {
  */
 bool CPPStructType::
 is_default_constructible() const {
+  if (is_abstract()) {
+    return false;
+  }
   return is_default_constructible(V_public);
 }
 
@@ -502,6 +505,9 @@ is_default_constructible() const {
  */
 bool CPPStructType::
 is_copy_constructible() const {
+  if (is_abstract()) {
+    return false;
+  }
   return is_copy_constructible(V_public);
 }
 
@@ -529,10 +535,6 @@ is_destructible() const {
  */
 bool CPPStructType::
 is_default_constructible(CPPVisibility min_vis) const {
-  if (is_abstract()) {
-    return false;
-  }
-
   CPPInstance *constructor = get_default_constructor();
   if (constructor != nullptr) {
     // It has a default constructor.
@@ -595,10 +597,6 @@ is_default_constructible(CPPVisibility min_vis) const {
  */
 bool CPPStructType::
 is_copy_constructible(CPPVisibility min_vis) const {
-  if (is_abstract()) {
-    return false;
-  }
-
   CPPInstance *constructor = get_copy_constructor();
   if (constructor != nullptr) {
     // It has a copy constructor.
